@@ -2,7 +2,7 @@
 From Coq Require Import List NArith ZArith Bool Lia.
 From Common Require Import Bytes Outcome.
 From Gen Require Import C08.
-From C08 Require Import Model ModelCD ModelLL ModelSub ModelSub2 ModelFL ModelGDEF Proofs Proofs_cd Proofs_ll Proofs_ll3 Proofs_ll4 Proofs_sub Proofs_sub2 Proofs_sub3 Proofs_fl Proofs_gdef.
+From C08 Require Import Model ModelCD ModelLL ModelSub ModelSub2 ModelFL ModelGDEF ModelSL Proofs Proofs_cd Proofs_ll Proofs_ll3 Proofs_ll4 Proofs_sub Proofs_sub2 Proofs_sub3 Proofs_fl Proofs_gdef Proofs_sl.
 Import ListNotations.
 Local Open Scope N_scope.
 
@@ -364,3 +364,27 @@ Print Assumptions gdef_roundtrip.
 Theorem gdef_read_total : forall (data : list N), M_gdef_read data <> Panic.
 Proof. exact gdef_read_total_aux. Qed.
 Print Assumptions gdef_read_total.
+
+(* ---------------- script list (gtab/scriptlist.go), byte level ---------------- *)
+(* The BCP 47 <-> OpenType tag conversion (x/text, property C14) is abstracted:
+   the encoder's input are the already converted entries grouped by script,
+   [conv_ok script lang] says that otfToBCP47 accepts a pair.  For entries
+   with 4-byte tags, valid feature indices (< 0xFFFF), 16-bit counts and
+   convertible pairs, within the reader's work budget (one unit per LangSys
+   and per feature index, 2^18 in total): whatever the encoder writes - it
+   panics when an offset or count does not fit 16 bits
+   (fixes/C08-list-offset-guards.diff) - the reader turns back into exactly
+   the assignments info[(script, lang)] = LangSys, in order, the default
+   LangSys (language "") of a script first. *)
+Theorem scriptlist_roundtrip :
+  forall (conv_ok : list N -> list N -> bool) (es : list script_entry) (b pre post : list N),
+    Forall (entry_rd_ok conv_ok) es -> total_work es <= maxWork ->
+    M_sl_encode es = Ok b ->
+    M_sl_read conv_ok (pre ++ b ++ post) (lenN pre) = Ok (flat_map entry_assignments es).
+Proof. exact sl_roundtrip. Qed.
+Print Assumptions scriptlist_roundtrip.
+
+Theorem scriptlist_read_total :
+  forall conv_ok (data : list N) (pos : N), M_sl_read conv_ok data pos <> Panic.
+Proof. exact sl_read_total. Qed.
+Print Assumptions scriptlist_read_total.
